@@ -70,6 +70,26 @@ theorem bulk_eq_fold_store_adv (P : AdvP) (hP : P.Ok) (data : ByteArray) (mask s
     Adv.bulkStoreRange P data mask s e st = forRange (Adv.store P data mask) s (e - s) st :=
   Adv.bulkStoreRange_eq_fold hP data mask s e he st hsz
 
+/-- … hence the batched paths realise the reference semantics of the index (written independently
+of the update code in BV/Lemmas/HasherSpec.lean; counters are `u16`): sizes unchanged; the counter
+of every key ends at (old + number of positions of `[s, e)` with that key) mod 2^16; every bucket
+slot holds the LAST position sent to it, where the `j`-th position with a key goes to ring slot
+`(old counter + j) mod 2^16 & block_mask` of the key's block; every other slot is untouched. -/
+theorem adv_index_reference_semantics (P : AdvP) (hP : P.Ok) (data : ByteArray) (k s e : Nat)
+    (num0 b0 : Tab) (hsz : Adv.sizesAsserted P ⟨num0, b0⟩ = true)
+    (hu16 : ∀ key, num0.getD key 0 < U16) (st' : AdvSt)
+    (h : Adv.storeRange P data (2 ^ k - 1) s e ⟨num0, b0⟩ = some st') :
+    st'.num.size = num0.size ∧ st'.buckets.size = b0.size ∧
+    (∀ key, key < num0.size → st'.num[key]? =
+      some ((num0.getD key 0 + Adv.countKey (Adv.keyOf P data (2 ^ k - 1)) s (e - s) key) % U16)) ∧
+    ∀ t,
+      (∀ ix, Basic.lastWriter (Adv.slotOf P (Adv.keyOf P data (2 ^ k - 1)) num0 s) s (e - s) t = some ix →
+        st'.buckets[t]? = some (ix % U32)) ∧
+      (Basic.lastWriter (Adv.slotOf P (Adv.keyOf P data (2 ^ k - 1)) num0 s) s (e - s) t = none →
+        st'.buckets[t]? = b0[t]?) := by
+  rw [store_range_eq_fold_store_adv P hP data k s e _ hsz] at h
+  exact Adv.fold_store_spec P hP.keyBound data (2 ^ k - 1) s num0 b0 hu16 (e - s) st' h
+
 /-- the size invariant: true of freshly allocated tables, kept by `Store` (hence by every entry
 point, which equal folds of `Store`) -/
 theorem adv_sizes_invariant (P : AdvP) :
